@@ -107,7 +107,7 @@ def verdict (run : Run) (impl : List String) : String :=
   | "ok" :: rest =>
     match runPrefix (do let r ← list pRow; let p ← list pPin; let f ← list pFrag; pure (r, p, f)) rest with
     | some ((rows, pins, frags), []) =>
-      match firstSome rows (rowViolation run) with
+      match firstSome rows (fun r => (rowViolation run r).map (fun c => c ++ "@" ++ strOfBytes r.filename ++ ":" ++ strOfBytes r.scannr ++ "#" ++ toString r.rank)) with
       | some c => "bad:row_" ++ c
       | none =>
         match tableViolation run rows with
